@@ -24,6 +24,13 @@ Theorem c16_new_correct :
     exists t, new fuel s = Ok t /\ valid_dt t /\ secs_of_civil t = s.
 Proof. exact new_correct. Qed.
 
+(* C16.1b the result is small: its year lies in 1970 .. 1970 + s/31536000, so for an i64 input every
+   field of the result (and, the loops being monotone in the year and antitone in the day, every
+   intermediate value) fits an i64. *)
+Theorem c16_result_year_bound :
+  forall t s, valid_dt t -> secs_of_civil t = s -> 0 <= s -> 1970 <= year t <= 1970 + s / 31536000.
+Proof. exact result_year_bound. Qed.
+
 (* C16.2  canonical forms are unique: a valid date-time is determined by its instant. *)
 Theorem c16_canonical_forms_unique :
   forall t1 t2, valid_dt t1 -> valid_dt t2 -> secs_of_civil t1 = secs_of_civil t2 -> t1 = t2.
@@ -160,6 +167,7 @@ Proof.
 Qed.
 
 Print Assumptions c16_new_correct.
+Print Assumptions c16_result_year_bound.
 Print Assumptions c16_canonical_forms_unique.
 Print Assumptions c16_new_terminates.
 Print Assumptions c16_add_correct.
